@@ -31,7 +31,7 @@ func (m *Mono) Key() string {
 				sb.WriteString("^" + f.exp.String())
 			}
 		}
-		m.key = sb.String()
+		m.key = shortKey(sb.String())
 	}
 	return m.key
 }
@@ -130,7 +130,7 @@ func (p *Poly) Key() string {
 			}
 		}
 		sb.WriteString("]")
-		p.key = sb.String()
+		p.key = shortKey(sb.String())
 	}
 	return p.key
 }
